@@ -30,15 +30,22 @@ def sizes_of(v):
     return dict(v.__dict__.get("_sizes") or {})
 
 
-def compare_readers(text, endian, align, pointer, datas):
-    """Returns list of problem dicts."""
+def load_both(text, endian, align, pointer, compiled, then=None):
+    cs = structs.load(text, endian=endian, pointer=pointer, compiled=compiled, align=align)
+    for t, al in then or []:
+        cs.load(t, compiled=compiled, align=al)
+    return cs
+
+
+def compare_readers(text, endian, align, pointer, datas, then=None):
+    """Returns list of problem dicts.  `then`: further (text, align) definitions loaded on the same cstruct object."""
     probs = []
     try:
-        a = structs.load(text, endian=endian, pointer=pointer, compiled=True, align=align)
-        b = structs.load(text, endian=endian, pointer=pointer, compiled=False, align=align)
+        a = load_both(text, endian, align, pointer, True, then)
+        b = load_both(text, endian, align, pointer, False, then)
     except Exception as e:  # noqa: BLE001
         try:
-            structs.load(text, endian=endian, pointer=pointer, compiled=False, align=align)
+            load_both(text, endian, align, pointer, False, then)
         except Exception:  # noqa: BLE001
             return []     # rejected by the library in both modes (e.g. straddling bit fields)
         return [{"what": "definition loads interpreted but not compiled", "observed": f"{type(e).__name__}: {e}", "expected": "fallback to the interpreted reader"}]
@@ -129,6 +136,34 @@ def check(run: Run) -> None:
                     explained.add(id(it))
                 run.report("C03/" + probs[0]["what"].split(" ")[0] + ("/aligned" if align else ""), {**c.describe(), "ops": [{"op": "compiled vs interpreted", "problems": probs[:3]}]})
 
+    # mixed alignment modes on one cstruct object: helper types loaded in one mode, `main` (which embeds them) in the other
+    n_mixed = 0
+    for k in KINDS:
+        for seq in (["uint8 {n};", "N {n};", k], ["uint8 {n};", "N {n}[2];", k], ["N {n};", k], ["uint8 {n};", "uint8 {n};", "N {n}[2][1];", k]):
+            if "p0" in k and seq[0] != "uint8 {n};":
+                continue
+            main = "struct main { " + " ".join(x.format(n=f"p{i}") for i, x in enumerate(seq)) + " };"
+            for pa in (True, False):
+                endian = rng.choice(["<", ">"])
+                datas = [F.random_data(rng, 64), bytes(range(1, 65))] + [bytes(range(1, 65))[:q] for q in rng.sample(range(0, 24), 2)]
+                n_oracle += len(datas)
+                n_mixed += 1
+                probs = compare_readers(PRELUDE, endian, pa, None, datas, then=[(main, not pa)])
+                c = Case(PRELUDE, endian=endian, align=pa, compiled=True, history=[("load_align", main, not pa)])
+                c.ops = [("layout",)] + [("parse", d, 0) for d in datas[:3]]
+                try:
+                    its = build_items(c)
+                except RuntimeError as e:
+                    failures += 1
+                    run.report("C03/unexpected-exception", {**c.describe(), "ops": [{"op": "parse", "observed": str(e.__cause__ or e)[:300], "expected": "a value or EOFError"}]})
+                    continue
+                items += its
+                if probs:
+                    failures += 1
+                    for it in its:
+                        explained.add(id(it))
+                    run.report("C03/" + probs[0]["what"].split(" ")[0] + "/mixed-modes", {**c.describe(), "ops": [{"op": "compiled vs interpreted", "problems": probs[:3]}]})
+
     mism = run_items(run, items)
     report_unexplained(run, mism, explained, "corr_compiled (compiled reader vs Model.Reader / Model.Layout)")
     F.obligation_fallback(run, ok, bool(failures or mism))
@@ -138,7 +173,7 @@ def check(run: Run) -> None:
                  "null-terminated arrays} x endianness x {packed, aligned} x pointer width; plus random definitions; inputs: full, structured and truncated"
                  % ("all" if thorough else "500 sampled"),
                  {"oracle_only_checks": n_oracle, "definitions": len(texts), "exhaustive_sequences": n_exh, "classes_compiled": n_compiled, "classes_fallen_back": n_fallback,
-                  "oracle_failures": failures}, exhaustive=True)
+                  "oracle_failures": failures, "mixed_alignment_mode_cases": n_mixed}, exhaustive=True)
     run.assumptions += ["NaN floats are not compared", "unions are never compiled (Compiler.compile returns them unchanged): they take part as members only"]
 
 
@@ -146,6 +181,7 @@ def replay(rep: dict) -> int:
     c = F.replay_case(rep)
     probs = rep["ops"][0].get("problems") or []
     datas = [bytes.fromhex(p["data"]) for p in probs if "data" in p] or [bytes(range(1, 65))]
-    now = compare_readers(c.text, c.endian, c.align, c.pointer, datas)
+    then = [(h[1], h[2]) for h in c.history if h[0] == "load_align"]
+    now = compare_readers(c.text, c.endian, c.align, c.pointer, datas, then=then)
     print("compiled vs interpreted:", now or "equivalent on the replayed inputs")
     return 1 if now else 0
